@@ -255,7 +255,10 @@ def any_integer(v: int, flag: bool) -> bool:
     return ok
 
 
-HOSTILE_COMMANDS = [[], {}, ["sign"], {"a": 1}, None, 7, 1.5, True, "", "nope"]
+HOSTILE_COMMANDS = [[], {}, ["sign"], {"a": 1}, None, 7, 1.5, True, "", "nope",
+                    # names that exist in protocol v5 only (in v1 mode they are unknown commands)
+                    "advanceBlockchain", "resetAdvanceBlockchain", "blockchainState", "updateAncestorBlock",
+                    "blockchainParameters", "signerHeartbeat", "uiHeartbeat", "Version", "getpubkey"]
 
 
 @obligation(tier="quick", parts=2, timeout=60, part_names=["v5", "v1"],
